@@ -215,14 +215,15 @@ def glob():
 LEAVES = {'*': {'_default': 5, '_emit': True}}
 
 
-def shape_of(x, depth=2):
-    """{port: sorted keys of the port's update}: what Store.apply_update must not
-    take out of the caller's dictionaries (C08: 'the update object handed in is
-    not modified').  What the structural operations do inside their own
-    directives (a _divide merges the daughters' steps into their processes) is
-    not covered by that sentence and not compared."""
+def shape_of(x, depth=6):
+    """The nested key structure of an update (dictionaries and lists, down to the
+    entries of the structural directives): what Store.apply_update must not add to
+    or take out of the caller's dictionaries (C08: 'the update object handed in
+    is not modified')."""
     if isinstance(x, dict) and depth > 0:
-        return {k: shape_of(v, depth - 1) for k, v in x.items()}
+        return {str(k): shape_of(v, depth - 1) for k, v in x.items()}
+    if isinstance(x, (list, tuple)) and depth > 0 and any(isinstance(v, dict) for v in x):
+        return [shape_of(v, depth - 1) for v in x]
     if isinstance(x, dict):
         return sorted(map(str, x))
     return type(x).__name__
